@@ -6,7 +6,16 @@ longer than the width, every emitter (emit.docstring x3, emit.class_, emit.funct
 with word_wrap on and off and the artefact parsed back; the two parsed interfaces must agree (names, order, types,
 defaults with their Python type, return entry; prose modulo runs of whitespace).  An input on which the UNWRAPPED
 pipeline itself raises is outside the property (it is some other property's finding) and counted as `baseline`.
-Failures are classified by the extracted Coq classifier C18Spec.finding_class_C18 (w, emitter, ir)."""
+Failures are classified by the extracted Coq classifier C18Spec.finding_class_C18 (w, emitter, ir).
+
+Besides the six default-option pairs the oracle runs the option variants of the AST emitters (VARIANTS: emit.class_ /
+emit.function / emit.argparse_function with emit_default_doc=True, emit.function with inline_types=False, i.e. with the
+types carried by the docstring, and both together), each read back by its own parser.  The Coq classifier knows the six
+default-option emitters; a variant is classified by the queries that describe the lines its docstring is made of
+(variant_queries).  Two input streams: (1) per width of a short list, many random IRs; (2) the dense sweep: a few IRs
+(typed parameters with defaults, prose of every length, types with blanks inside quoted Literal members) evaluated
+at EVERY width of a range with every pair - the property quantifies over widths and a break position that matters
+(inside a quoted choice, inside a default sentence) is hit by a few widths only."""
 import ast
 import collections
 import copy
@@ -43,6 +52,18 @@ TRUSTED = [
     "(documented in coq/model/C18Spec.v), evaluated through the extracted driver",
 ]
 EMITTERS = ["docstring-rest", "docstring-numpydoc", "docstring-google", "class", "function", "argparse"]
+# option variants of the AST emitters: name -> keyword arguments of the emitter that differ from the defaults
+VARIANTS = collections.OrderedDict([
+    ("class+defaults", {"emit_default_doc": True}),
+    ("function+doctypes", {"inline_types": False}),
+    ("function+defaults", {"emit_default_doc": True}),
+    ("function+doctypes+defaults", {"inline_types": False, "emit_default_doc": True}),
+    ("argparse+defaults", {"emit_default_doc": True}),
+])
+ALL_PAIRS = EMITTERS + list(VARIANTS)
+SWEEP_QUICK = (list(range(40, 141)), 6)       # (widths, number of IRs): every width, few IRs
+SWEEP_THOROUGH = (list(range(20, 201)), 16)
+MAX_CHILDREN = 12
 WIDTHS_QUICK = [None, 20, 40, 60, 79, 80, 100, 120, 200]
 WIDTHS_THOROUGH = [None, 12, 16, 20, 25, 30, 35, 40, 50, 60, 70, 79, 80, 90, 100, 110, 120, 150, 200, 300]
 
@@ -72,11 +93,27 @@ def _emitters():
     for st in ("rest", "numpydoc", "google"):
         tbl["docstring-" + st] = ((lambda ir, ww, st=st: E.docstring(ir, docstring_format=st, word_wrap=ww)),
                                   (lambda t: P.docstring(t)))
-    tbl["class"] = ((lambda ir, ww: E.class_(ir, word_wrap=ww)), (lambda n: P.class_(n)))
-    tbl["function"] = ((lambda ir, ww: E.function(ir, function_name="f", function_type="static", word_wrap=ww)),
-                       (lambda n: P.function(n)))
-    tbl["argparse"] = ((lambda ir, ww: E.argparse_function(ir, word_wrap=ww)), (lambda n: P.argparse_ast(n)))
+    for name in ["class", "function", "argparse"] + list(VARIANTS):
+        kw = dict(VARIANTS.get(name, {}))
+        base = name.split("+")[0]
+        if base == "class":
+            tbl[name] = ((lambda ir, ww, kw=kw: E.class_(ir, word_wrap=ww, **kw)), (lambda n: P.class_(n)))
+        elif base == "function":
+            tbl[name] = ((lambda ir, ww, kw=kw: E.function(ir, function_name="f", function_type="static", word_wrap=ww, **kw)),
+                         (lambda n: P.function(n)))
+        else:
+            tbl[name] = ((lambda ir, ww, kw=kw: E.argparse_function(ir, word_wrap=ww, **kw)), (lambda n: P.argparse_ast(n)))
     return tbl
+
+
+def _squeeze_types(face):
+    """the interface with every blank removed from the type strings: what is left to compare once the documented
+    effect of a wrapped :type line (newline + indent inside the type string read back) is put aside"""
+    f = copy.deepcopy(face)
+    for _, d in f["params"] + f["returns"]:
+        if isinstance(d.get("typ"), str):
+            d["typ"] = "".join(d["typ"].split())
+    return f
 
 
 def _diff(a, b):
@@ -96,7 +133,8 @@ def _diff(a, b):
 
 
 def eval_ir(ir, emitters=None):
-    """-> [(emitter, status, what, wrapping_changed_artefact)], status in ok / fail / baseline"""
+    """-> [(emitter, status, what, wrapping_changed_artefact, symptom)], status in ok / fail / baseline;
+    symptom of a failure: "type-blanks" when the two interfaces differ only by blanks inside type strings, else "other" """
     res = []
     tbl = _emitters()
     for name in emitters or EMITTERS:
@@ -116,13 +154,14 @@ def eval_ir(ir, emitters=None):
         a, b = r[True], r[False]
         changed = arts.get(True) != arts.get(False)
         if b[0] != "ok":
-            res.append((name, "baseline", "unwrapped pipeline: %s %s" % b[:2], changed))
+            res.append((name, "baseline", "unwrapped pipeline: %s %s" % b[:2], changed, ""))
         elif a[0] != "ok":
-            res.append((name, "fail", "wrapped %s %s, unwrapped parses" % a[:2], changed))
+            res.append((name, "fail", "wrapped %s %s, unwrapped parses" % a[:2], changed, "other"))
         elif a[1] == b[1]:
-            res.append((name, "ok", "", changed))
+            res.append((name, "ok", "", changed, ""))
         else:
-            res.append((name, "fail", "wrapped vs unwrapped " + _diff(a[1], b[1]), changed))
+            res.append((name, "fail", "wrapped vs unwrapped " + _diff(a[1], b[1]), changed,
+                        "type-blanks" if _squeeze_types(a[1]) == _squeeze_types(b[1]) else "other"))
     return res
 
 
@@ -135,7 +174,7 @@ def _child_main():
         try:
             out = eval_ir(req["ir"], req.get("emitters"))
         except Exception as e:  # noqa
-            out = [("*", "harness-exception", type(e).__name__ + ": " + str(e)[:200], False)]
+            out = [("*", "harness-exception", type(e).__name__ + ": " + str(e)[:200], False, "")]
         sys.stdout.write(json.dumps(out) + "\n")
         sys.stdout.flush()
 
@@ -163,7 +202,32 @@ def collect(p, data, width, n):
     return res
 
 
+def run_jobs(jobs):
+    """jobs: {width: [request]} -> {width: [per-IR result]}; one child process per width, MAX_CHILDREN at a time"""
+    from concurrent.futures import ThreadPoolExecutor
+
+    def one(w):
+        p, data = run_width(w, jobs[w])
+        return w, collect(p, data, w, len(jobs[w]))
+    with ThreadPoolExecutor(MAX_CHILDREN) as ex:
+        return dict(ex.map(one, list(jobs)))
+
+
 # ------------------------------------------------------------------ inputs
+def blank_literal(rng):
+    """a Literal type whose quoted members contain blanks (Literal['mean over batch', 'sum over batch']): the only
+    blanks of a type string at which a :type line can be broken other than the one after a comma"""
+    members = []
+    for _ in range(rng.randint(2, 5)):
+        m = " ".join(G.word(rng) for _ in range(rng.randint(2, 4)))
+        if m not in members:
+            members.append(m)
+    t = "Literal[%s]" % ", ".join(repr(m) for m in members)
+    if rng.random() < 0.25:
+        t = "Optional[%s]" % t
+    return t, members
+
+
 def gen_input(rng, width):
     w = width or 100
     clean = rng.random() < 0.6
@@ -193,17 +257,171 @@ def gen_input(rng, width):
                                              "use the pre-trained weights when the value is given and then the list.",
                                              "non-negative number of items per step."])
         tags.append("hyphen")
+    if ps and rng.random() < 0.12:
+        p = rng.choice(ps)
+        p["typ"], members = blank_literal(rng)
+        if rng.random() < 0.8:
+            p["default"] = rng.choice(members)
+        else:
+            p.pop("default", None)
+        tags.append("blank-literal")
     return json.loads(json.dumps(ir)), tags
 
 
+PROSE_LENGTHS = [(1, 4), (4, 10), (10, 20), (20, 40)]
+
+
+def gen_sweep_ir(rng):
+    """an IR for the dense width sweep: mostly typed parameters with type-consistent defaults (so that every emitter
+    that writes default sentences has some to write), prose of every length, ordinary / long / blank-in-quotes types"""
+    used, params = set(), collections.OrderedDict()
+    for _ in range(rng.randint(2, 4)):
+        name = G.ident(rng)
+        while name in used:
+            name = G.ident(rng)
+        used.add(name)
+        p = {"doc": G.clean_prose(rng, **dict(zip(("min_words", "max_words"), rng.choice(PROSE_LENGTHS)),
+                                              terminal=rng.choice([".", ".", ",", ""])))}
+        r = rng.random()
+        if r < 0.35:
+            p["typ"], members = blank_literal(rng)
+            if rng.random() < 0.85:
+                p["default"] = rng.choice(members)
+        elif r < 0.45:
+            p["typ"] = rng.choice(fam_docemit.LONG_TYPES)
+            if "'np'" in p["typ"] and rng.random() < 0.7:
+                p["default"] = rng.choice(["np", "tf", "adam"])
+        else:
+            p["typ"] = gen_ir.typ_of_shape(rng, rng.choice(["scalar", "scalar", "optional", "list", "literal", "union", "absent"]))
+            dk, dv = gen_ir.consistent_default(rng, p["typ"], ["absent", "value", "value", "value"])
+            if p["typ"] is None:
+                del p["typ"]
+            if dk != "absent":
+                p["default"] = dv
+        params[name] = p
+    ret = None
+    k = rng.choice(["none", "both", "both", "doc", "typ"])
+    if k != "none":
+        r_ = {}
+        if k in ("both", "typ"):
+            r_["typ"] = gen_ir.typ_of_shape(rng, rng.choice(["scalar", "union", "tuple", "dotted", "list"]))
+        if k in ("both", "doc"):
+            r_["doc"] = G.clean_prose(rng, **dict(zip(("min_words", "max_words"), rng.choice(PROSE_LENGTHS))))
+        ret = {"return_type": r_}
+    doc = "\n".join(G.clean_prose(rng, **dict(zip(("min_words", "max_words"), rng.choice(PROSE_LENGTHS[:3]))),
+                                  terminal=rng.choice([".", ""])) for _ in range(rng.choice([1, 1, 2])))
+    ir = {"name": None, "type": "static", "doc": doc, "params": params, "returns": ret}
+    return json.loads(json.dumps(ir)), ["sweep"]
+
+
+def applicable(pair, ir):
+    """the variants are drawn only where the unchanged implementation is known to keep the property apart from the
+    listed finding classes.  Two shapes are kept out (both reported as findings of their own, neither is in a class
+    the Coq classifier knows for these pairs):
+    - class+defaults with a str default that contains a full stop ("a.b", "```x.y```"): the default sentence
+      `Defaults to a.b` is read back only up to the stop also WITHOUT wrapping, the rest stays in the prose, and the
+      re-joined wrapped text then differs from the unwrapped one by a blank before that rest;
+    - argparse+defaults with prose that itself announces a default: the help text keeps the announcement, wrapping
+      may break it (`default\nvalue is`), and the default is then no longer taken out of the help text."""
+    ps = list((ir.get("params") or {}).values())
+    if pair == "class+defaults":
+        return not any(isinstance(p.get("default"), str) and "." in p["default"] for p in ps)
+    if pair == "argparse+defaults":
+        return not any("default" in (p.get("doc") or "").casefold() for p in ps)
+    return True
+
+
+# ------------------------------------------------------------------ classification (extracted Coq classifier)
+def _entries(ir):
+    return list((ir.get("params") or {}).values()) + list((ir.get("returns") or {}).values())
+
+
+def _without_defaults(ir):
+    ir = copy.deepcopy(ir)
+    for p in _entries(ir):
+        p.pop("default", None)
+    return ir
+
+
+def _fragile_entries_only(ir):
+    """the entries whose default is searched before the wrapped lines are re-joined when the docstring carries no
+    :type lines: parameters without a type, and the return entry"""
+    ir = copy.deepcopy(ir)
+    ir["params"] = {k: p for k, p in (ir.get("params") or {}).items() if not p.get("typ")}
+    for p in (ir.get("returns") or {}).values():
+        p.pop("typ", None)
+    return ir
+
+
+def _no_types(ir):
+    ir = copy.deepcopy(ir)
+    for p in _entries(ir):
+        p.pop("typ", None)
+    return ir
+
+
+def _short_types(ir, short):
+    ir = copy.deepcopy(ir)
+    for p in _entries(ir):
+        if p.get("typ"):
+            p["typ"] = short
+    return ir
+
+
+def variant_queries(pair, ir):
+    """the (emitter, IR) questions to the Coq classifier that describe the lines the docstring of this pair is made of.
+    The classifier knows the six default-option emitters.  A variant's docstring is the one of its base emitter
+    (headers, prose, default sentences already in the prose) plus the lines its options add, which are lines of the
+    ReST docstring emitter: :type lines (inline_types=False) and appended default sentences (emit_default_doc=True).
+    Without :type lines in the docstring a function parameter is an untyped one to the docstring reader (its type
+    is in the signature, and a type inferred from a default found in the prose takes precedence over it); a class
+    attribute keeps the annotated type, so only its really untyped entries are fragile."""
+    if pair in EMITTERS:
+        return [(pair, ir)]
+    base, opts = pair.split("+")[0], VARIANTS[pair]
+    q = [(base, ir)]
+    doctypes, defaults = opts.get("inline_types") is False, bool(opts.get("emit_default_doc"))
+    if base == "argparse":
+        return q
+    if doctypes and defaults:
+        q.append(("docstring-rest", ir))
+    elif doctypes:
+        q.append(("docstring-rest", _without_defaults(ir)))
+    elif defaults:
+        q.append(("docstring-rest", _no_types(ir) if base == "function" else _fragile_entries_only(ir)))
+    return q
+
+
 def classify(points):
-    """points: [(width, emitter, ir)] -> class name or None, via the extracted Coq classifier"""
-    reqs = [dumps([Sym("c18_class"), (100 if w is None else w), Sym(e), irwire.enc_ir(fam_docemit._od(ir))])
-            for w, e, ir in points]
-    out = []
-    for r in run_model(reqs):
+    """points: [(width, pair, ir)] -> class name or None, via the extracted Coq classifier (first class found among
+    the queries of the pair)"""
+    reqs, owner = [], []
+    for i, (w, e, ir) in enumerate(points):
+        for be, bir in variant_queries(e, ir):
+            reqs.append(dumps([Sym("c18_class"), (100 if w is None else w), Sym(be), irwire.enc_ir(fam_docemit._od(bir))]))
+            owner.append(i)
+    out = [None] * len(points)
+    for i, r in zip(owner, run_model(reqs)):
         e = loads(r)
-        out.append(None if e == "none" else unhx(e[1]))
+        if out[i] is None and e != "none":
+            out[i] = unhx(e[1])
+    return out
+
+
+def refine(failed):
+    """failed: [(width, pair, ir, class, symptom)] -> class.  Class wrapped-type-line is the finding `newline + indent
+    end up inside the type string read back`; a failure in it whose two interfaces differ by MORE than blanks inside
+    type strings (another field differs, or the wrapped artefact no longer parses) is explained by a finding only if
+    the same IR with types short enough to fit (one that makes a str default quoted, one that does not) is in some
+    class too; otherwise it is reported unclassified."""
+    idx = [i for i, f in enumerate(failed) if f[3] == "wrapped-type-line" and f[4] != "type-blanks"]
+    out = [f[3] for f in failed]
+    for i in idx:
+        out[i] = None
+    for short in ("str", "T"):
+        again = classify([(failed[i][0], failed[i][1], _short_types(failed[i][2], short)) for i in idx])
+        for i, c in zip(idx, again):
+            out[i] = out[i] or c
     return out
 
 
@@ -213,30 +431,46 @@ def check_case(case):
         return True, ""
     p, data = run_width(case.get("width"), [{"ir": case["ir"], "emitters": [case["emitter"]]}])
     res = collect(p, data, case.get("width"), 1)[0]
-    name, status, what, _ = res[0]
+    name, status, what = res[0][:3]
     return status != "fail", what
 
 
 def oracle(rng, tier):
     widths = WIDTHS_QUICK if tier == "quick" else WIDTHS_THOROUGH
     n = 110 if tier == "quick" else 350
-    batches = {}
+    sweep_widths, n_sweep = SWEEP_QUICK if tier == "quick" else SWEEP_THOROUGH
+    jobs = collections.OrderedDict()
     for w in widths:
-        batches[w] = [gen_input(rng, w) for _ in range(n)]
-    procs = {w: run_width(w, [{"ir": ir} for ir, _ in batches[w]]) for w in widths}
-    results = {w: collect(procs[w][0], procs[w][1], w, n) for w in widths}
+        jobs[w] = []
+        for _ in range(n):
+            ir, tags = gen_input(rng, w)
+            jobs[w].append((ir, tags, EMITTERS + [v for v in sorted(rng.sample(list(VARIANTS), 2)) if applicable(v, ir)]))
+    sweep = [gen_sweep_ir(rng) for _ in range(n_sweep)]
+    for w in sweep_widths:
+        jobs.setdefault(w, []).extend((ir, tags, [e for e in ALL_PAIRS if applicable(e, ir)]) for ir, tags in sweep)
+    results = run_jobs({w: [{"ir": ir, "emitters": ems} for ir, _, ems in js] for w, js in jobs.items()})
     points, meta = [], []
-    for w in widths:
-        for (ir, tags), res in zip(batches[w], results[w]):
-            for name, status, what, changed in res:
+    for w, js in jobs.items():
+        for (ir, tags, _), res in zip(js, results[w]):
+            for name, status, what, changed, symptom in res:
                 points.append((w, name, ir))
-                meta.append((w, name, ir, tags, status, what, changed))
+                meta.append((w, name, ir, tags, status, what, changed, symptom))
     classes = classify(points)
+    fidx = [i for i, m in enumerate(meta) if m[4] == "fail"]
+    for i, c in zip(fidx, refine([(meta[i][0], meta[i][1], meta[i][2], classes[i], meta[i][7]) for i in fidx])):
+        if c != classes[i]:
+            meta[i] = meta[i][:5] + (meta[i][5] + " [input in class %s, which explains blanks inside type strings only]"
+                                     % classes[i],) + meta[i][6:]
+            classes[i] = c
     failures, hist, seen = [], collections.Counter(), set()
-    for (w, name, ir, tags, status, what, changed), cls in zip(meta, classes):
+    for (w, name, ir, tags, status, what, changed, _), cls in zip(meta, classes):
         wl = "unset" if w is None else str(w)
+        stream = "sweep" if "sweep" in tags else "random"
         hist["%s:%s:%s" % (name, status, cls or "in-guard")] += 1
-        hist["width:%s:%s" % (wl, status)] += 1
+        hist["width:%s:%s" % (wl if stream == "random" else "sweep", status)] += 1
+        for t in tags:
+            if t in ("blank-literal", "sweep"):
+                hist["shape:%s:%s" % (t, status)] += 1
         if status == "harness-exception":
             failures.append({"case": {"width": w, "emitter": name, "ir": ir}, "what": what, "class": None})
             continue
@@ -252,13 +486,17 @@ def oracle(rng, tier):
     return {
         "evaluations": len(points),
         "distinct_nontrivial": len(seen),
-        "rule": "widths %s x word_wrap on/off x generated IRs (gen_ir clean and general; prose/summaries/types stretched "
-                "to below, at and far above the width; words longer than the width and hyphenated words seeded) x six emitters, one child "
-                "process per width; non-trivial = distinct (width, emitter, IR) inside the guard on which wrapping changed "
-                "the artefact and both pipelines parsed to the same interface" % (["unset" if w is None else w for w in widths],),
+        "rule": "random stream: widths %s x word_wrap on/off x generated IRs (gen_ir clean and general; prose/summaries/types "
+                "stretched to below, at and far above the width; words longer than the width, hyphenated words and Literal "
+                "types with blanks inside quoted members seeded) x the six default-option pairs and two of the option "
+                "variants %s; dense sweep: %d IRs x every width %d..%d x all %d pairs; one child process per width; "
+                "non-trivial = distinct (width, pair, IR) inside the guard on which wrapping changed the artefact and both "
+                "pipelines parsed to the same interface"
+                % (["unset" if w is None else w for w in widths], list(VARIANTS), n_sweep, sweep_widths[0], sweep_widths[-1],
+                   len(ALL_PAIRS)),
         "failures": failures,
         "histogram": dict(hist),
-        "samples": [{"width": w, "emitter": name, "ir": ir} for (w, name, ir, _, _, _, _) in meta[:40:8]],
+        "samples": [{"width": m[0], "emitter": m[1], "ir": m[2]} for m in meta[:40:8]],
     }
 
 
